@@ -3,6 +3,7 @@ package interp
 import (
 	"fmt"
 	"os"
+	"sync"
 	"go/types"
 	"sort"
 	"strings"
@@ -84,6 +85,7 @@ type Config struct {
 	Params      map[string]int
 	Trace       bool
 	SharedInit  bool
+	EagerAll    bool
 	EagerInit   []string // packages initialised before the harness runs (registries the real program fills at start-up)
 }
 
@@ -545,6 +547,16 @@ func (e *Engine) RunPath(entry *ssa.Function, prefix []int64) (res *PathResult, 
 			}
 		}
 		if entry.Pkg != nil {
+			// Go initialises every imported package before main: do so for the
+			// first-party packages (registries of variables, codecs, balancers...);
+			// third-party and standard packages stay lazy.
+			if e.cfg.EagerAll {
+				for _, pth := range firstPartyInitOrder(entry.Pkg.Pkg) {
+					if e.prog.ImportedPackage(pth) != nil && !e.stubPkgs[pth] {
+						e.InitPackage(pth)
+					}
+				}
+			}
 			e.InitPackage(entry.Pkg.Pkg.Path())
 		}
 		e.callFunction(nil, entry, nil, nil)
@@ -589,4 +601,39 @@ func (e *Engine) SampleModel() map[string]uint64 {
 		return nil
 	}
 	return m
+}
+
+var initOrderCache = map[*types.Package][]string{}
+var initOrderMu sync.Mutex
+
+func firstParty(path string) bool {
+	return strings.HasPrefix(path, "mosn.io/mosn/") || strings.HasPrefix(path, "mosn.io/pkg/") || strings.HasPrefix(path, "mosn.io/api")
+}
+
+// firstPartyInitOrder lists the first-party packages imported (transitively)
+// by pkg in dependency order.
+func firstPartyInitOrder(pkg *types.Package) []string {
+	initOrderMu.Lock()
+	defer initOrderMu.Unlock()
+	if o, ok := initOrderCache[pkg]; ok {
+		return o
+	}
+	var order []string
+	seen := map[*types.Package]bool{}
+	var visit func(p *types.Package)
+	visit = func(p *types.Package) {
+		if seen[p] {
+			return
+		}
+		seen[p] = true
+		for _, imp := range p.Imports() {
+			visit(imp)
+		}
+		if p != pkg && firstParty(p.Path()) && !strings.Contains(p.Path(), "zzverif") {
+			order = append(order, p.Path())
+		}
+	}
+	visit(pkg)
+	initOrderCache[pkg] = order
+	return order
 }
